@@ -9,31 +9,79 @@ include!(concat!(env!("OUT_DIR"), "/subject_mods.rs"));
 
 pub mod clock;
 pub mod common;
+pub mod engine_i;
 pub mod engine_p;
+pub mod engine_w;
 pub mod explore;
+pub mod scen;
 pub mod sched;
 pub mod sim;
 
 use std::time::{Duration, Instant};
 
 fn main() {
+    std::env::remove_var("RUST_BACKTRACE");
+    std::env::set_var("RUST_LIB_BACKTRACE", "0");
     sched::install_panic_hook();
     let args: Vec<String> = std::env::args().collect();
+    let bound: u32 = args.get(2).and_then(|s| s.parse().ok()).unwrap_or(1);
     let limits = explore::Limits {
-        max_depth: 64,
+        max_depth: 90,
         deadline: Instant::now() + Duration::from_secs(600),
         threads: 16,
         recheck_every: 50,
         max_states: 50_000_000,
     };
-    let mut cfgs = engine_p::configs_wait(2, false);
-    cfgs.extend(engine_p::configs_pay(2, false));
+    let which = args.get(1).cloned().unwrap_or_default();
+    if which == "i12" || which == "i18" {
+        let rep = if which == "i12" { engine_i::c12_fee(false) } else { engine_i::c18(false, 16) };
+        println!("evals {} nontrivial {} found {}", rep.evaluations, rep.distinct_nontrivial, rep.found.len());
+        for f in &rep.found {
+            println!("  FOUND {} :: {}", f.0.signature(), &f.0.detail[..f.0.detail.len().min(300)]);
+        }
+        return;
+    }
+    let cfgs = match which.as_str() {
+        "life" => vec![scen::with_props(scen::s_life("S-life/2htlc", true, false, false), scen::ALL_W)],
+        "life1" => vec![scen::with_props(scen::s_life("S-life/1htlc", false, false, true), scen::ALL_W)],
+        "c09" => {
+            let mut c = scen::s_life("S-life/1htlc/probe", false, false, false);
+            c.probe = true;
+            vec![scen::with_props(c, &["C09"])]
+        }
+        "hash" => vec![
+            scen::with_props(scen::s_hash(1, 1, false), scen::ALL_W),
+            scen::with_props(scen::s_hash(1, 2, false), scen::ALL_W),
+        ],
+        "hist" => ["none", "free", "pending-nopart", "pending-noattempt", "pending-pendingpart", "pending-failedpart", "pending-completepart", "succeeded"]
+            .iter()
+            .map(|k| scen::with_props(scen::s_hist(k, 0, false), scen::ALL_W))
+            .collect(),
+        _ => vec![],
+    };
+    if args.get(3).map(|s| s == "-e").unwrap_or(false) {
+        use explore::Model;
+        let mut w = engine_w::W::new(&cfgs[0]);
+        for _ in 0..6 {
+            let en = w.enabled();
+            println!("{:?}", en.iter().map(|c| format!("{}:{}", c.label, c.cost)).collect::<Vec<_>>());
+            w.apply(0);
+        }
+        return;
+    }
     for cfg in cfgs {
-        let out = explore::explore::<engine_p::P>(&cfg, 0, &limits);
+        let out = explore::explore::<engine_w::W>(&cfg, bound, &limits);
         println!("{} -> {:?} err={:?}", cfg.name, out.stats, out.error);
         for f in &out.found {
             println!("  FOUND {} cost {} : {}", f.violation.signature(), f.cost, f.violation.detail);
             println!("    history: {:?}", f.labels);
+        }
+        if args.get(3).map(|s| s == "-v").unwrap_or(false) {
+            for (l, log) in out.samples.iter().take(1) {
+                for line in log {
+                    println!("    | {}", line);
+                }
+            }
         }
     }
 }
